@@ -41,49 +41,58 @@ def cfgs(tier):
     # A: chain a->b plus an independent c contending for one gpu
     tk = [task(1, 1, "a@G", [], [2], [strat(1, 2)], src=True), task(2, 1, "b@G", [1], [], [strat(1, 1)], sink=True),
           task(3, 2, "c@H", [], [], [strat(1, 2)], src=True, sink=True)]
-    gr = [{"g": 1, "name": [71], "tasks": [1, 2], "closed": False, "jg": "G", "cp": 3, "conc": 0, "ninv": 0},
-          {"g": 2, "name": [72], "tasks": [3], "closed": False, "jg": "H", "cp": 2, "conc": 0, "ninv": 0}]
+    gr = [{"g": 1, "name": [71], "tasks": [1, 2], "closed": False, "jg": "G", "cp": 3, "conc": 0, "ninv": 0, "init": True},
+          {"g": 2, "name": [72], "tasks": [3], "closed": False, "jg": "H", "cp": 2, "conc": 0, "ninv": 0, "init": True}]
     out.append(("chain_contention", dict(
         MCW={"pools": [[[I("gpu", "g1", 1)]]], "fl": flags(timeout=10)}, MCTasks=tk, MCGraphs=gr,
-        MCInit=[dyn(0, 6), dyn(-1, 6), dyn(1, 5)], SchedRt=0, Frontier={"la": 0, "rtg": False, "retract": False}, Delays={0, 1}, MaxInvocations=3)))
+        MCInit=[dyn(0, 6), dyn(-1, 6), dyn(1, 5)], SchedRt=0, Frontier={"la": 0, "rtg": False, "retract": False}, Delays={0, 1}, MaxInvocations=3, AllowCancel=True)))
     # B: plan-ahead: the policy is offered not-yet-released tasks (TASK_NOT_READY deferral), scheduler runtime 1
     out.append(("plan_ahead", dict(
         MCW={"pools": [[[I("gpu", "g1", 2)]]], "fl": flags(timeout=10, sched_rt=1)}, MCTasks=tk[:2], MCGraphs=gr[:1],
-        MCInit=[dyn(0, 6), dyn(-1, 6)], SchedRt=1, Frontier={"la": 6, "rtg": True, "retract": True}, Delays={0, 2}, MaxInvocations=2)))
+        MCInit=[dyn(0, 6), dyn(-1, 6)], SchedRt=1, Frontier={"la": 6, "rtg": True, "retract": True}, Delays={0, 2}, MaxInvocations=2, AllowCancel=True)))
     # C: conditional a -> {b | c} -> d(terminal), drop_skipped: cancellations by the policy and by the branch
     tkc = [task(1, 1, "a@G", [], [2, 3], [strat(1, 1)], cond=True, src=True),
            task(2, 1, "b@G", [1], [4], [strat(1, 1)]), task(3, 1, "c@G", [1], [4], [strat(1, 2)]),
            task(4, 1, "d@G", [2, 3], [], [strat(1, 1)], term=True, sink=True)]
-    grc = [{"g": 1, "name": [71], "tasks": [1, 2, 3, 4], "closed": False, "jg": "G", "cp": 4, "conc": 0, "ninv": 0}]
+    grc = [{"g": 1, "name": [71], "tasks": [1, 2, 3, 4], "closed": False, "jg": "G", "cp": 4, "conc": 0, "ninv": 0, "init": True}]
     out.append(("conditional", dict(
         MCW={"pools": [[[I("gpu", "g1", 1)]]], "fl": flags(timeout=12, drop_skipped=True)}, MCTasks=tkc, MCGraphs=grc,
         MCInit=[dyn(0, 8), dyn(-1, 8, 500000), dyn(-1, 8, 500000), dyn(-1, 8)], SchedRt=0, Frontier={"la": 0, "rtg": False, "retract": False},
-        Delays={0}, MaxInvocations=4)))
+        Delays={0}, MaxInvocations=4, AllowCancel=True)))
+    # E: closed loop: three invocations of a one-task job graph, concurrency 2 (refill on completion)
+    tke = [task(1, 1, "r@J0", [], [], [strat(1, 2)], src=True, sink=True), task(2, 2, "r@J1", [], [], [strat(1, 1)], src=True, sink=True),
+           task(3, 3, "r@J2", [], [], [strat(1, 2)], src=True, sink=True)]
+    gre = [{"g": i + 1, "name": [74, 48 + i], "tasks": [i + 1], "closed": True, "jg": "J", "cp": 2, "conc": 2, "ninv": 3, "init": i < 2}
+           for i in range(3)]
+    out.append(("closed_loop", dict(
+        MCW={"pools": [[[I("gpu", "g1", 1)]]], "fl": flags(timeout=14)}, MCTasks=tke, MCGraphs=gre,
+        MCInit=[dyn(1, 9), dyn(1, 9), dyn(-1, 12)], SchedRt=0, Frontier={"la": 0, "rtg": False, "retract": False},
+        Delays={0, 1}, MaxInvocations=4, AllowCancel=False)))
     if tier == "thorough":
         # D: two heterogeneous pools, two strategies, frequency 2, scheduler runtime 1
         tkd = [task(1, 1, "a@G", [], [3], [strat(1, 2), strat(2, 1)], src=True),
                task(2, 1, "b@G", [], [3], [strat(1, 1)], src=True),
                task(3, 1, "c@G", [1, 2], [], [strat(2, 1)], sink=True)]
-        grd = [{"g": 1, "name": [71], "tasks": [1, 2, 3], "closed": False, "jg": "G", "cp": 3, "conc": 0, "ninv": 0}]
+        grd = [{"g": 1, "name": [71], "tasks": [1, 2, 3], "closed": False, "jg": "G", "cp": 3, "conc": 0, "ninv": 0, "init": True}]
         out.append(("two_pools", dict(
             MCW={"pools": [[[I("gpu", "g1", 1)]], [[I("gpu", "g2", 2)]]], "fl": flags(timeout=12, frequency=2, sched_rt=1)},
             MCTasks=tkd, MCGraphs=grd, MCInit=[dyn(0, 7), dyn(1, 7), dyn(-1, 7)], SchedRt=1, Frontier={"la": 0, "rtg": False, "retract": False},
-            Delays={0, 1}, MaxInvocations=3)))
+            Delays={0, 1}, MaxInvocations=3, AllowCancel=True)))
         out.append(("plan_ahead_diamond", dict(
             MCW={"pools": [[[I("gpu", "g1", 2)]]], "fl": flags(timeout=14)},
             MCTasks=[task(1, 1, "a@G", [], [2, 3], [strat(1, 1)], src=True), task(2, 1, "b@G", [1], [4], [strat(1, 2)]),
                      task(3, 1, "c@G", [1], [4], [strat(1, 1)]), task(4, 1, "d@G", [2, 3], [], [strat(1, 1)], sink=True)],
-            MCGraphs=[{"g": 1, "name": [71], "tasks": [1, 2, 3, 4], "closed": False, "jg": "G", "cp": 4, "conc": 0, "ninv": 0}],
+            MCGraphs=[{"g": 1, "name": [71], "tasks": [1, 2, 3, 4], "closed": False, "jg": "G", "cp": 4, "conc": 0, "ninv": 0, "init": True}],
             MCInit=[dyn(0, 9), dyn(-1, 9), dyn(-1, 9), dyn(-1, 9)], SchedRt=0, Frontier={"la": 6, "rtg": True, "retract": True}, Delays={0, 1},
-            MaxInvocations=2)))
+            MaxInvocations=2, AllowCancel=True)))
     return out
 
 
-INVARIANTS = ["MC_C18", "MC_C01", "MC_C02", "MC_C03", "MC_C04", "MC_C06", "MC_C07", "MC_C08", "MC_C05_End", "MC_NoCrash", "MC_TimeBound"]
+INVARIANTS = ["MC_C19", "MC_C18", "MC_C01", "MC_C02", "MC_C03", "MC_C04", "MC_C06", "MC_C07", "MC_C08", "MC_C05_End", "MC_NoCrash", "MC_TimeBound"]
 PROPERTIES = ["MC_Clock", "MC_Legal", "MC_ExactRuntime", "MC_Terminates"]
 
 OWN = {
-    "MC_C18": ["C18"], "MC_C01": ["C01"], "MC_C02": ["C02"], "MC_C03": ["C03"], "MC_C04": ["C04"], "MC_C06": ["C06"], "MC_C07": ["C07"],
+    "MC_C19": ["C19"], "MC_C18": ["C18"], "MC_C01": ["C01"], "MC_C02": ["C02"], "MC_C03": ["C03"], "MC_C04": ["C04"], "MC_C06": ["C06"], "MC_C07": ["C07"],
     "MC_C08": ["C08"], "MC_C05_End": ["C05"], "MC_NoCrash": ["C05"], "MC_TimeBound": ["C05"], "MC_Clock": ["C03"],
     "MC_Legal": ["C06"], "MC_ExactRuntime": ["C03"], "MC_Terminates": ["C05"], "temporal": ["C05", "C03", "C06"],
 }
